@@ -8,6 +8,7 @@ import YardlModel.Batch
 import YardlModel.Expr
 import YardlModel.Imports
 import YardlModel.Proto
+import YardlModel.ProtoFail
 import YardlModel.Schema
 import YardlModel.Json
 import YardlModel.Plan
@@ -18,7 +19,7 @@ import YardlModel.Namespaces
 import YardlModel.ProtoMatlab
 import YardlModel.Evolution
 import YardlModel.Topo
-import YardlModel.Names
+import YardlModel.Case
 import YardlGenerated.Pipeline
 
 /-! Line-protocol driver for the wire engine: one JSON request per line on stdin, one JSON
@@ -463,10 +464,12 @@ def handle (j : Json) : Except String Json := do
       Json.mkObj [("reject", match r.1 with | some i => jn i | none => Json.null), ("state", jn r.2)]
     match machine with
     | "cppW" | "pyW" =>
+      -- "f": a write call whose implementation raises (ProtoFail); without "f" the machines are cppW / pyW themselves
       let wops ← toks.mapM fun (t, i, _) => match t with
-        | "w" => pure (Proto.WOp.write i) | "e" => pure (Proto.WOp.endS i) | "c" => pure Proto.WOp.close
+        | "w" => pure (Proto.WOpF.op (.write i)) | "e" => pure (Proto.WOpF.op (.endS i)) | "c" => pure (Proto.WOpF.op .close)
+        | "f" => pure (Proto.WOpF.fail i)
         | _ => throw s!"bad wop {t}"
-      pure (fin (firstReject (if machine == "cppW" then Proto.cppW shape else Proto.pyW shape) 0 wops 0))
+      pure (fin (firstReject (if machine == "cppW" then Proto.cppWF shape else Proto.pyWF shape) 0 wops 0))
     | "cppR" =>
       let rops ← toks.mapM fun (t, i, b) => match t with
         | "r" => pure (Proto.ROp.read i b) | "B" => pure (Proto.ROp.batch i b) | "c" => pure Proto.ROp.close
@@ -639,10 +642,30 @@ def handle (j : Json) : Except String Json := do
     let suffix ← (← j.getObjVal? "suffix").getStr?
     let cased ← (← j.getObjVal? "cased").getStr?
     let table ← match lang with
-      | "cpp" => pure Generated.reserved_cpp | "python" => pure Generated.reserved_python | "matlab" => pure Generated.reserved_matlab
-      | "cpp_types" => pure Generated.reserved_cpp_types
+      | "cpp" => pure Generated.reserved_cpp_codes | "python" => pure Generated.reserved_python_codes | "matlab" => pure Generated.reserved_matlab_codes
+      | "cpp_types" => pure Generated.reserved_cpp_types_codes
       | l => throw s!"bad language {l}"
-    pure (Json.mkObj [("ident", Json.str (Names.ident table suffix cased))])
+    let rule := ((j.getObjVal? "rule").toOption.bind (·.getStr?.toOption)).getD "plain"
+    let r := if rule == "recursive" then Case.identRec table (Case.str suffix) (Case.str cased) else Case.ident table (Case.str suffix) (Case.str cased)
+    pure (Json.mkObj [("ident", Json.str (String.ofList (r.map Char.ofNat)))])
+  | "case" =>
+    -- case conversions of formatting.go and the identifiers derived from them (reserved tables regenerated from source)
+    let n ← (← j.getObjVal? "name").getStr?
+    let s := Case.str n
+    if !s.all Case.inAlphabet then pure (Json.mkObj [("unmodelled", Json.bool true)]) else
+    let str (l : List Nat) : Json := Json.str (String.ofList (l.map Char.ofNat))
+    let sn := Case.snake s; let us := Case.upperSnake s; let pa := Case.pascal s
+    pure (Json.mkObj [("snake", str sn), ("upperSnake", str us), ("pascal", str pa),
+      ("cppField", str (Case.identRec Generated.reserved_cpp_codes (Case.str "_field") sn)),
+      ("pyField", str (Case.ident Generated.reserved_python_codes (Case.str "_") sn)),
+      ("matlabField", str (Case.ident Generated.reserved_matlab_codes (Case.str "_") sn)),
+      ("pyEnumValue", str (Case.ident Generated.reserved_python_codes (Case.str "_") us)),
+      ("matlabEnumValue", str (Case.ident Generated.reserved_matlab_codes (Case.str "_") us)),
+      ("cppEnumValue", str (Case.ident Generated.reserved_cpp_codes (Case.str "_value") (107 :: pa))),
+      ("cppComputed", str (Case.ident Generated.reserved_cpp_codes (Case.str "_field") pa)),
+      ("pyComputed", str (Case.ident Generated.reserved_python_codes (Case.str "_") sn)),
+      ("cppWriterMethods", Json.arr ((Case.cppWriterMethods s true).map str).toArray),
+      ("cppReaderMethods", Json.arr ((Case.cppReaderMethods s).map str).toArray)])
   | "narrow" =>
     let b ← jNat (← j.getObjVal? "bits")
     pure (Json.mkObj [("f32", jn (Json.narrow b))])
